@@ -270,6 +270,40 @@ def run(repo, tier):
                      ok, why, loc(S.rel, e.node))
     if n_like == 0:
         raise AnalysisError("stablehlo.Printer.tostring: no statement printing the like operand found")
+    # R6.4 the text of a numeric constant is the value itself: no conversion that merges values (int(-0.0) is 0, round, abs ...)
+    val_names = set()
+    for st in ast.walk(f):
+        if isinstance(st, ast.Assign) and isinstance(st.targets[0], ast.Tuple) and len(st.targets[0].elts) == 2 and norm_src(st.value) == "expr.operands" \
+                and isinstance(st.targets[0].elts[0], ast.Name):
+            val_names.add(st.targets[0].elts[0].id)
+    if len(val_names) != 1:
+        raise AnalysisError("stablehlo.Printer.tostring: `value, like = expr.operands` not found")
+    VALN = next(iter(val_names))
+    n_ctext = 0
+    seen_ct = set()
+    for p in enumerate_paths(f, unroll=(0, 1)):
+        if p.exit != "return" or p.exit_node.value is None:
+            continue
+        for js in ast.walk(p.exit_node.value):
+            if not isinstance(js, ast.JoinedStr):
+                continue
+            vals = js.values
+            for k in range(len(vals) - 1):
+                if isinstance(vals[k], ast.Constant) and str(vals[k].value).endswith('StableHLO_ConstantLike<"') and isinstance(vals[k + 1], ast.FormattedValue):
+                    n_ctext += 1
+                    og = origins(vals[k + 1].value, p.events, len(p.events))
+                    calls = sorted(v for k_, v in og if k_ == "call" and v.split(".")[-1] not in ("str", "repr"))
+                    consts = sorted(v for k_, v in og if k_ == "const")
+                    keyc = (tuple(calls), tuple(consts))
+                    if keyc in seen_ct:
+                        continue
+                    seen_ct.add(keyc)
+                    ok = not calls and not consts and any(k_ == "name" and v == VALN or k_ == "attr" and v.endswith("operands") for k_, v in og)
+                    r.ob("R6.4", "targets/stablehlo.py::Printer.tostring numeric constant text is the value itself" + (f" [{', '.join(calls + consts)}]" if not ok else ""), ok,
+                         f"on a path the text inside StableHLO_ConstantLike<\"...\"> is computed from the constant's value through {calls or consts}: a conversion "
+                         "such as int() prints -0.0 as 0 (and 2.5 as 2), so the emitted pattern denotes another constant than the graph", loc(S.rel, js))
+    if n_ctext == 0:
+        raise AnalysisError("stablehlo.Printer.tostring: the generic constant text `StableHLO_ConstantLike<\"{value}\">` was not found")
     # normalize(): the like operand given to a bare Python number must come from the operation's own operands
     nz = repo.func("expr.py", "normalize")
     for p in enumerate_paths(nz, unroll=(0, 1)):
